@@ -9,5 +9,8 @@ go build -o ../.build/vcheck ./cmd/vcheck
 for p in enga engb engc; do
   go test -c -tags verif -vet=off -o ../.build/warm.test ./$p >/dev/null 2>&1 || true
 done
+for p in enga engc; do
+  go test -c -race -tags verif -vet=off -o ../.build/warm.test ./$p >/dev/null 2>&1 || true
+done
 rm -f ../.build/warm.test
 echo "setup ok"
